@@ -342,7 +342,7 @@ impl<'a> Gen<'a> {
 
     fn key(&mut self) -> KeySpec {
         if self.pc(self.p.adversarial_keys) {
-            KeySpec::RootSuffix { idx: self.rng.below(4096) as u32, cut: self.rng.below(64) as u32 }
+            KeySpec::RootSuffix { idx: self.rng.below(4096) as u32, cut: if self.rng.chance(1, 4) { 0 } else { self.rng.below(64) as u32 } }
         } else if self.rng.chance(1, 8) {
             let n = self.rng.usize(4);
             KeySpec::Lit(self.rng.bytes(n))
